@@ -104,13 +104,14 @@ type commitPoint struct {
 }
 
 type World struct {
-	Shared    Shared
-	S         *dev.Store
-	T         *wmpt.WeightedMerkleTrie
-	M         *model.WModel
-	Commits   []commitPoint
-	Pending   bool // model changed since the last durable commit
-	GCPending int  // DeleteNodes passes since the first mutation after the last commit
+	Shared     Shared
+	S          *dev.Store
+	T          *wmpt.WeightedMerkleTrie
+	M          *model.WModel
+	Commits    []commitPoint
+	Pending    bool            // model changed since the last durable commit
+	GCPending  int             // DeleteNodes passes since the first mutation after the last commit
+	EverShared map[string]bool // values that two live keys held at the same time at some point
 	// checkpoint (C13)
 	Chk        *commitPoint
 	ChkKeys    []string // storage keys present when the checkpoint was taken
@@ -148,6 +149,18 @@ func (w *World) Apply(o Op) (fail string) {
 		}
 		w.M.M[string(Keys[o.Key])] = model.WEntry{Key: Keys[o.Key], Value: []byte(v), Weight: Weight(v)}
 		w.Pending = true
+		n := 0
+		for _, e := range w.M.M {
+			if string(e.Value) == v {
+				n++
+			}
+		}
+		if n >= 2 {
+			if w.EverShared == nil {
+				w.EverShared = map[string]bool{}
+			}
+			w.EverShared[v] = true
+		}
 	case 'X':
 		err := w.T.Update(Keys[o.Key], nil, 0)
 		if _, ok := w.M.M[string(Keys[o.Key])]; ok {
